@@ -145,7 +145,8 @@ def jobs_for(prop, tier, seed):
         J += shard_jobs(prop, seed, ["wake"], 3, s, "wake", base=60)
         # ... and "a Stream yields None" for stream tasks that are *parked* at that moment (crowds included)
         J += shard_jobs(prop, seed, ["fut", "--crowd"], 2, s, "fut", base=70)
-        J.append(miri(prop, seed, "lastsender", ["conc", "--families", "last-sender", "--runs", "2"], ms, mt, {"*": "C07,C04,C16", "miri-deadlock": "C08"}, no_race=True, base=19))
+        J.append(miri(prop, seed, "lastsender", ["conc", "--families", "last-sender", "--runs", "2"], ms // 2, mt, {"*": "C07,C04,C16", "miri-deadlock": "C08"}, no_race=True, base=19))
+        J.append(miri(prop, seed, "lastsender-races", ["conc", "--families", "last-sender", "--runs", "2", "--fl", "broadcast"], ms // 2, mt, {"*": "C07,C04,C16", "miri-deadlock": "C08"}, base=21))
     elif prop == "C08":
         J += shard_jobs(prop, seed, ["wake"], n, s, "wake")
         J.append(miri(prop, seed, "wake", ["wake", "--runs", "2"], ms, mt, {"*": "C08", "miri-deadlock": "C08"}, no_race=True, base=23))
